@@ -18,6 +18,14 @@ Theorem C22_container_encodes : forall ms, Forall valid_msg ms -> exists e, enco
 Proof. exact encode_container_ok. Qed.
 Print Assumptions C22_container_encodes.
 
+(* malformed count: a container announcing a negative number of messages is rejected
+   (holds since fix 8e2c2ab76; before it the loop simply did not run and Decode returned an
+   empty container with a nil error) *)
+Theorem C22_container_negative_count : forall n r, - 2 ^ 31 <= n < 0 ->
+  decode_container (encode_uint32 c_MessageContainerTypeID ++ encode_int n ++ r) = Err (PTl EInvalidLength).
+Proof. exact container_negative_count. Qed.
+Print Assumptions C22_container_negative_count.
+
 Theorem C22_result_roundtrip : forall id body, i64 id -> decode_result (encode_result id body) = Ok (id, body, []).
 Proof. exact result_roundtrip. Qed.
 Print Assumptions C22_result_roundtrip.
